@@ -188,7 +188,7 @@ def opRun (j : Json) : R Json := do
         let U := if frac < 1/1000 then u else addF3 u dU frac
         let V := if frac < 1/1000 then v else addF3 v dV frac
         sampleVel g U V sign p.x p.y p.z x y
-      let wadv := valRat (lookupVal p.vars "w")
+      let wadv := sign * valRat (lookupVal p.vars "w")
       match trackerStep cfg g vel 0 0 0 wadv { x := p.x, y := p.y, z := p.z, alive := p.alive, active := p.active } with
       | some q => { p with x := quantize q.x, y := quantize q.y, z := quantize q.z, alive := q.alive, active := q.active }
       | none => { p with vars := setVal p.vars "__oob__" (.num 1) },
